@@ -55,17 +55,17 @@ META = {
 SOURCES = ["ll/ll_harness.cpp"] + [s for s in vlib.LL_SOURCES if os.path.exists(s)]
 INCLUDES = ["-I" + vlib.HARNESS + "/ll"]
 
-# link layer variants: name -> (defines, own sca, number of run-time latency configurations)
+# link layer variants: name -> (defines, own sca, number of run-time latency configurations, 2 MBit PHY)
 VARIANTS = {
-    "default":     (["LL_LATENCY=0"], 500, 1),
-    "ignored":     (["LL_LATENCY=1"], 500, 1),
-    "strict":      (["LL_LATENCY=2"], 500, 1),
-    "strict_plus": (["LL_LATENCY=3"], 500, 1),
-    "set":         (["LL_LATENCY=4"], 500, 4),
-    "empty":       (["LL_LATENCY=5"], 500, 1),
-    "unack_txne":  (["LL_LATENCY=6"], 500, 1),
-    "sca20":       (["LL_LATENCY=0", "LL_OWN_SCA=20"], 20, 1),
-    "sca250":      (["LL_LATENCY=2", "LL_OWN_SCA=250", "LL_TX=61", "LL_RX=61", "LL_2M=0"], 250, 1),
+    "default":     (["LL_LATENCY=0"], 500, 1, True),
+    "ignored":     (["LL_LATENCY=1"], 500, 1, True),
+    "strict":      (["LL_LATENCY=2"], 500, 1, True),
+    "strict_plus": (["LL_LATENCY=3"], 500, 1, True),
+    "set":         (["LL_LATENCY=4"], 500, 4, True),
+    "empty":       (["LL_LATENCY=5"], 500, 1, True),
+    "unack_txne":  (["LL_LATENCY=6"], 500, 1, True),
+    "sca20":       (["LL_LATENCY=0", "LL_OWN_SCA=20"], 20, 1, True),
+    "sca250":      (["LL_LATENCY=2", "LL_OWN_SCA=250", "LL_TX=61", "LL_RX=61", "LL_2M=0"], 250, 1, False),
 }
 
 
@@ -75,9 +75,9 @@ def build_variants(c, names):
     return dict(zip(names, exes))
 
 
-def gen_cfg(c, name, family, D=6, lats="{0,1,3}", dminneg=3, dmax=8, ncfg=1, small="FALSE"):
-    return vlib.write_cfg(c, name, "CONSTANTS Family = \"%s\"  D = %d  Lats = %s  DMinNeg = %d  DMax = %d  NCfg = %d  Small = %s\n"
-                          "SPECIFICATION GSpec\nINVARIANTS Emit\nCHECK_DEADLOCK FALSE\n" % (family, D, lats, dminneg, dmax, ncfg, small))
+def gen_cfg(c, name, family, D=6, lats="{0,1,3}", dminneg=3, dmax=8, ncfg=1, small="FALSE", wraps="{}"):
+    return vlib.write_cfg(c, name, "CONSTANTS Family = \"%s\"  D = %d  Lats = %s  DMinNeg = %d  DMax = %d  NCfg = %d  Small = %s  Wraps = %s\n"
+                          "SPECIFICATION GSpec\nINVARIANTS Emit\nCHECK_DEADLOCK FALSE\n" % (family, D, lats, dminneg, dmax, ncfg, small, wraps))
 
 
 def script_of(beh):
@@ -85,15 +85,30 @@ def script_of(beh):
 
 
 def parse_diags(out):
-    """<<"MISMATCH", line, <<diag...>>>> lines -> {line: [diag items]}"""
+    """<<"DIAG", line, <<diag...>>>> prints (TLC may wrap them over several lines) -> {line: [diag items]}"""
     res = {}
-    for line in out.splitlines():
-        line = line.strip()
-        if line.startswith('<<"MISMATCH"'):
-            v = vlib.parse_tla_value(line)
-            if v and len(v) >= 3:
-                res[int(v[1])] = v[2]
-    return res
+    pos = 0
+    while True:
+        m = re.search(r'<<\s*"DIAG"', out[pos:])
+        if not m:
+            return res
+        start = pos + m.start()
+        depth, i = 0, start
+        while i < len(out):
+            if out.startswith("<<", i):
+                depth += 1
+                i += 2
+            elif out.startswith(">>", i):
+                depth -= 1
+                i += 2
+                if depth == 0:
+                    break
+            else:
+                i += 1
+        v = vlib.parse_tla_value(" ".join(out[start:i].split()))
+        if v and len(v) >= 3:
+            res[int(v[1])] = v[2]
+        pos = i
 
 
 def conn_classes(ev):
@@ -161,8 +176,8 @@ class Runner:
                 raise vlib.ToolFailure("ll_harness failed rc=%d: %s" % (rc, out[-2000:]))
             traces.append(tp)
         tcfg = vlib.write_cfg(c, "trace_%s_%s.cfg" % (c.prop, variant),
-                              "CONSTANTS OwnSca = %d  Check = {\"%s\"}\nSPECIFICATION TSpec\nINVARIANTS TypeOK\nCHECK_DEADLOCK FALSE\n"
-                              % (own, c.prop))
+                              "CONSTANTS OwnSca = %d  Check = {\"%s\"}  Phy2M = %s\nSPECIFICATION TSpec\nINVARIANTS TypeOK\nCHECK_DEADLOCK FALSE\n"
+                              % (own, c.prop, "TRUE" if VARIANTS[variant][3] else "FALSE"))
         verdicts = vlib.validate_parallel("LinkLayer", "LinkLayerTrace.tla", tcfg, traces)
         nviol = 0
         for tp, part in zip(traces, parts):
@@ -239,7 +254,7 @@ def run_c22(c, r):
     behs = generate(c, "connreq", "gen_connreq.cfg")
     c.sample({"family": "connreq", "behaviour": behs[0]})
     r.run("default", behs, "connreq")
-    behs = generate(c, "superv", "gen_superv.cfg", D=6 if q else 9)
+    behs = generate(c, "superv", "gen_superv.cfg", D=6 if q else 8)
     c.sample({"family": "superv", "behaviour": behs[-1]})
     r.run("default", behs, "superv")
     behs = generate(c, "update", "gen_update.cfg", small="TRUE" if q else "FALSE")
@@ -258,17 +273,46 @@ def run_c22(c, r):
 
 
 def run_c23(c, r):
-    c.note("C23 families not implemented yet")
+    q = c.quick
+    for variant in VARIANTS_FOR[(c.prop, q)]:
+        ncfg = VARIANTS[variant][2]
+        if q:
+            behs = generate(c, "latency", "gen_lat_%s.cfg" % variant, D=2, lats="{2}", ncfg=ncfg, small="TRUE")
+        elif variant in ("default", "strict"):
+            behs = generate(c, "latency", "gen_lat_%s.cfg" % variant, D=3, lats="{2}", ncfg=ncfg, small="TRUE")
+        else:
+            behs = generate(c, "latency", "gen_lat_%s.cfg" % variant, D=2, lats="{1,3}", ncfg=ncfg, small="TRUE")
+        c.sample({"family": "latency", "variant": variant, "behaviour": behs[len(behs) // 3]})
+        r.run(variant, behs, "lat")
+        nsim, dsim = (40, 8) if q else (150, 14)
+        behs = generate(c, "latency", "sim_lat_%s.cfg" % variant, D=dsim, lats="{1,2,3}", ncfg=ncfg, simulate=max(1, nsim // 4), depth=dsim + 4)
+        r.run(variant, behs[:nsim], "latsim")
+    c.exhaustive = True
 
 
 def run_c21(c, r):
-    c.note("C21 families not implemented yet")
+    q = c.quick
+    for variant in VARIANTS_FOR[(c.prop, q)]:
+        if q:
+            behs = generate(c, "instant", "gen_inst_%s.cfg" % variant, D=2, lats="{0,2}", dminneg=2, dmax=3, small="TRUE")
+            behs += generate(c, "instant", "gen_wrap_%s.cfg" % variant, D=0, lats="{2}", dminneg=1, dmax=3, small="TRUE", wraps="{65527}")
+        elif variant == "default":
+            behs = generate(c, "instant", "gen_inst_%s.cfg" % variant, D=2, lats="{0,3}", dminneg=3, dmax=8)
+            behs += generate(c, "instant", "gen_wrap_%s.cfg" % variant, D=1, lats="{0,3}", dminneg=3, dmax=8, small="TRUE", wraps="{65524, 65527, 65530}")
+        else:
+            behs = generate(c, "instant", "gen_inst_%s.cfg" % variant, D=2, lats="{1,2}", dminneg=3, dmax=4, small="TRUE")
+        c.sample({"family": "instant", "variant": variant, "behaviour": behs[len(behs) // 2]})
+        r.run(variant, behs, "inst")
+        if not q and variant == "default":
+            behs = generate(c, "instant", "sim_inst.cfg", D=8, lats="{0,1,2,3}", dminneg=3, dmax=8, simulate=60, depth=16)
+            r.run(variant, behs[:240], "instsim")
+    c.exhaustive = True
 
 
 VARIANTS_FOR = {
     ("C22", True): ["default"], ("C22", False): ["default", "sca20", "sca250"],
     ("C23", True): ["set", "strict"], ("C23", False): ["set", "default", "ignored", "strict", "strict_plus", "empty", "unack_txne"],
-    ("C21", True): ["default"], ("C21", False): ["default", "set", "strict", "sca250"],
+    ("C21", True): ["default"], ("C21", False): ["default", "set", "strict"],
 }
 
 
